@@ -15,12 +15,14 @@ func init() {
 		level:       "other",
 		explanation: "os.File-like semantics of the remote File decided structurally: each exported method takes the File mutex in the mode required by what it can reach (exclusive if a store to offset/handle is reachable, shared otherwise) before touching either field; every load of the handle is dominated by the closed test (in the method or transitively at every call site of the helper); Close clears the handle before sending CLOSE with the value loaded before, and is the only writer of the handle; no store to the offset is reachable from the *At and metadata methods; every store to the offset has one of the shapes 'offset += bytes moved by the callee' / 'offset = position of the error' / the Seek table, the latter guarded by the negative test.",
 		run:         runC12,
+		quickExtra:  []BuildConfig{cfg386},
 		assumptions: []string{"callers use a File only through its methods"},
 	})
 	register("C13", &propSpec{
 		level:       "other",
 		explanation: "Partial-failure accounting decided structurally: the reducers of the three concurrent transfers keep the error with the lowest offset (guard e.off <= first.off from MaxInt64) and return first.err with first.off - off; every worker error is sent unconditionally to the drained error channel; the read worker reports a short DATA as io.EOF at chunk offset + bytes copied; sequential loops return at the first error with the running count that only grows by the callee's count; WriteTo's reducer consumes chunks in request order and stops before advancing on an error, mapping io.EOF to nil only there; a nil error is returned only with the full length.",
 		run:         runC13,
+		extra:       []BuildConfig{cfg386},
 		assumptions: []string{"regular files return short reads only at end of file (the premise written in client.go)"},
 	})
 }
@@ -340,7 +342,19 @@ func runC12(c *Ctx) {
 	// ---------- R9 Read advances the offset by what readAt counted: its reducer must keep the lowest offset ----------
 	// (shared with C13.R1/R2/R6: with another error kept, Read reports bytes that were not read and the offset
 	// moves past the end of the data)
-	c.withRule("R9", func() { checkReducers(c, []string{"(*File).readAt"}) })
+	// Write and ReadFrom advance the offset by what their reducers counted, in the same way
+	c.withRule("R9", func() {
+		checkReducers(c, []string{"(*File).readAt", "(*File).writeAtConcurrent", "(*File).readFromWithConcurrency"})
+	})
+
+	// ---------- R13 what a transfer counts is what it moved, from where the offset said (shared with C01.R1) ----------
+	// Read/Write/ReadFrom/WriteTo add the count of their helper to the offset: a helper that counts bytes it did not
+	// move, or that asks for another place than start+cursor (in 64 bits), leaves the offset where os.File would not
+	c.withRule("R13", func() {
+		c01TransferSitesOnly = true
+		defer func() { c01TransferSitesOnly = false }()
+		runC01(c)
+	})
 
 	// ---------- R10 the chunk offsets of one call cannot wrap round int64 ----------
 	checkChunkOffsetsCannotWrap(c, "R10")
@@ -968,6 +982,43 @@ func checkOffsetStores(c *Ctx, rule string, only map[string]bool) {
 				"no return (or next chunk) is reached without the store", "the offset can stay where it was although "+spec.callee+" moved bytes (on the path where it also returned an error): the next Read delivers the same bytes again, the next Write overwrites what was just written")
 		}
 		c.check(len(calls) >= 1, rule, spec.host+" transfers at the offset", p.Pos(fn.Pos()), fmt.Sprintf("%d calls of %s", len(calls), spec.callee), spec.host+" no longer calls "+spec.callee)
+	}
+	// WriteTo's sequential loop hands the chunk it read to the writer: the offset has moved past the chunk on every path
+	// from the read through the Write to a return or to the next chunk (os.File: what was read is consumed even when
+	// the destination then fails)
+	if only == nil || only["(*File).writeToSequential"] {
+		if fn := p.Func("(*File).writeToSequential"); fn == nil {
+			c.missing(rule, "(*File).writeToSequential")
+		} else {
+			isOffStore := func(in ssa.Instruction) bool {
+				st, ok := in.(*ssa.Store)
+				if !ok {
+					return false
+				}
+				t, n, _, ok := fieldOf(st.Addr)
+				return ok && n == "offset" && typeName(t) == "File"
+			}
+			reads := callsWhere(fn, func(cc *ssa.CallCommon) bool { return calleeName(cc) == "readChunkAt" })
+			for i, rd := range reads {
+				rd := rd
+				isWrite := func(in ssa.Instruction) bool {
+					cc := callOf(in)
+					return cc != nil && cc.IsInvoke() && cc.Method.Name() == "Write"
+				}
+				isEnd := func(in ssa.Instruction) bool { return isReturn(in) || in == rd }
+				blk := rd.Block()
+				idx := 0
+				for k, in := range blk.Instrs {
+					if in == rd {
+						idx = k + 1
+					}
+				}
+				around := reachStagedX(blk, idx, []func(ssa.Instruction) bool{isWrite, isEnd}, func(in ssa.Instruction, _ int) bool { return isOffStore(in) }, nil)
+				c.check(!around, rule, fmt.Sprintf("(*File).writeToSequential: offset advanced past the chunk written #%d on every path", i+1), pos(rd),
+					"no return (or next chunk) is reached after the Write without the store", "the offset can stay where it was although the chunk was read and handed to the writer (on the path where the writer fails): the same bytes are delivered again by the next Read or WriteTo")
+			}
+			c.check(len(reads) >= 1, rule, "(*File).writeToSequential transfers at the offset", p.Pos(fn.Pos()), fmt.Sprintf("%d calls of readChunkAt", len(reads)), "writeToSequential no longer calls readChunkAt")
+		}
 	}
 	if only != nil {
 		nStores += 7
